@@ -1,6 +1,7 @@
 package sim
 
 import (
+	"strings"
 	"fmt"
 
 	"github.com/cosmos/cosmos-sdk/crypto/keys/ed25519"
@@ -82,7 +83,8 @@ func BasedBlockFor(f *oracletypes.TokenFeeder, h int64) (uint64, uint64, bool) {
 func init() {
 	// price: A operator idx; B feeder id (1-based, 0 -> 1); S price; N nonce (0 = next);
 	// E based-block delta; C det id delta; M signature mode; D timestamp offset seconds;
-	// C2 = 1: attribute to a non-validator key (user-derived); Amt2 = "pad:<n>" pads the tx size
+	// C2 = 1: attribute to a non-validator key (user-derived); C2 = 2: creator spelled in upper-case
+	// bech32; Amt2 = "pad:<n>" pads the tx size
 	extraBuilders["price"] = func(r *Run, ctx sdk.Context, op Op) (*BuiltTx, error) {
 		w := r.W
 		o := w.Op(op.A)
@@ -140,7 +142,11 @@ func init() {
 		if op.M >= 100 { // wrong source
 			src = 2
 		}
-		msg := NewPriceMsg(OracleCreator(key), fid, bb, nonce, src, price, dec, detID, ts.Format(oracleTimeLayout))
+		creator := OracleCreator(key)
+		if op.C2 == 2 {
+			creator = strings.ToUpper(creator) // bech32 also accepts the all-upper-case spelling
+		}
+		msg := NewPriceMsg(creator, fid, bb, nonce, src, price, dec, detID, ts.Format(oracleTimeLayout))
 		if op.Amt2 != "" {
 			var n int
 			fmt.Sscanf(op.Amt2, "pad:%d", &n)
